@@ -13,6 +13,7 @@ import Apko.Proofs.Lemmas.FSSymBit
 import Apko.Proofs.Lemmas.TarWalk
 import Apko.Proofs.Lemmas.FSPosixDemo
 import Apko.Proofs.Lemmas.FSPosixSim
+import Apko.Proofs.Lemmas.FSPosixLF
 import Apko.Generated.FS
 /-! C17 — the virtual file systems behave like a file system (theorems over `Model/FS.lean`) -/
 namespace Apko.C17
@@ -650,6 +651,46 @@ theorem resolve_posix_rel_early_loop :
   refine ⟨inv_of_nodes (by decide) (by decide),
     forall_node (P := fun n => ∀ cmp ∈ parts n.target, cmp ≠ dot ∧ cmp ≠ dotdot) (by decide) (by decide),
     by decide, by decide, by decide⟩
+
+/-- **resolve_posix_linkfree** — exact agreement with relative targets.  "Relative targets are only met under
+link-free prefixes" is the decidable condition `relPrefixesLinkFree fs p` (`Lemmas/FSPosixLF.lean`): along
+the lookup of `p` by memfs/tarfs, in every component loop (the one over `p` and the nested ones over link
+targets), a link with a relative target is only reached while no link has been followed yet in that loop —
+the traversed prefix is then the real path of the directory that holds the link, joining the target to it
+and walking it again costs no traversal, and the two resolutions give the *same* answer, `ELOOP` included.
+Absolute targets are always allowed (`relPrefixesLinkFree_of_abs`: `resolve_posix_partial` is the special
+case). -/
+theorem resolve_posix_linkfree :
+  ∀ (b : Backend) (fs : FS) (p : Text),
+    (∀ i : Nat, ∀ cmp ∈ parts (fs.node i).target, cmp ≠ dot ∧ cmp ≠ dotdot) →
+    (∀ cmp ∈ parts p, cmp ≠ dot ∧ cmp ≠ dotdot) →
+    relPrefixesLinkFree fs p = true →
+    getNode (Cfg.impl b) fs p = getNode (Cfg.spec b) fs p :=
+  fun b _ p hnd hp hs => getNode_eq_of_linkFree (ci := Cfg.impl b) (cs := Cfg.spec b) rfl rfl hnd p hp hs
+
+theorem relPrefixesLinkFree_of_abs (fs : FS) (p : Text)
+    (habs : ∀ i : Nat, (fs.node i).isSymlink = true → isAbs (fs.node i).target = true) :
+    relPrefixesLinkFree fs p = true := safeL_of_abs habs _ _ _
+
+/-- non-vacuity on a reachable merged-`/usr` state (`usr/bin/sh → busybox`, `bin → /usr/bin`,
+`lnk → usr/bin/sh`): `usr/bin/sh` and `lnk` (a relative link whose target ends in another relative link) meet
+the condition and both resolutions reach `busybox`; `bin/sh` does not meet it (`sh` is reached after the link
+`bin` was followed) — there `resolve_posix_upto_loop` applies -/
+example : (run (Cfg.impl .tarfs) FS.empty mergeDemoOps).1 = mergeDemo ∧
+    (∀ i : Nat, ∀ cmp ∈ parts (mergeDemo.node i).target, cmp ≠ dot ∧ cmp ≠ dotdot) ∧
+    (∀ cmp ∈ parts "lnk".toList, cmp ≠ dot ∧ cmp ≠ dotdot) ∧
+    relPrefixesLinkFree mergeDemo "usr/bin/sh".toList = true ∧
+    relPrefixesLinkFree mergeDemo "lnk".toList = true ∧
+    getNode (Cfg.impl .tarfs) mergeDemo "lnk".toList = .ok 3 ∧
+    getNode (Cfg.spec .tarfs) mergeDemo "lnk".toList = .ok 3 ∧
+    relPrefixesLinkFree mergeDemo "bin/sh".toList = false ∧
+    getNode (Cfg.impl .tarfs) mergeDemo "bin/sh".toList = getNode (Cfg.spec .tarfs) mergeDemo "bin/sh".toList :=
+  ⟨mergeDemo_reachable _,
+   forall_node (P := fun n => ∀ cmp ∈ parts n.target, cmp ≠ dot ∧ cmp ≠ dotdot) (by decide) (by decide),
+   by decide, by decide, by decide, by decide, by decide, by decide, by decide⟩
+
+/-- the condition is not vacuous in the other direction either: it fails on the early-`ELOOP` witness -/
+example : relPrefixesLinkFree (relChain 21) "l/r".toList = false := by decide
 
 /-! ### ties to the source (regenerated on every run by `extract/fs.go`) -/
 
